@@ -348,7 +348,8 @@ pub fn encode_foreign_into(enc: &mut RefChunkEnc, ts_by_csid: &mut std::collecti
                     ts,
                     type_id: m.type_id,
                     msid: m.msid,
-                    payload: fill_bytes(m.fill, m.len as usize),
+                    // a 4-byte Abort carries its `fill` as the chunk stream id it names
+                    payload: if m.type_id == 2 && m.len == 4 { m.fill.to_be_bytes().to_vec() } else { fill_bytes(m.fill, m.len as usize) },
                 };
                 let e = enc.encode(
                     &msg,
